@@ -222,6 +222,15 @@ func pokeV1(item Item) (vs []pokeViolation) {
 			vs = append(vs, pokeViolation{"v1:output-of-DeleteItem", "modifying the old item returned by DeleteItem changed the stored item"})
 		}
 	}
+	// (vi) the input of a batch write, and what a failing database hands back as unprocessed
+	bin := toV1Item(item)
+	if _, err := c.BatchWriteItem(&v1sdk.BatchWriteItemInput{RequestItems: map[string][]*v1sdk.WriteRequest{tbl: {{PutRequest: &v1sdk.PutRequest{Item: bin}}}}}); err == nil {
+		stored = get()
+		scribbleV1Item(bin)
+		if !sameItem(get(), stored) {
+			vs = append(vs, pokeViolation{"v1:input-of-BatchWriteItem", "modifying the item passed to BatchWriteItem changed what GetItem returns"})
+		}
+	}
 	return vs
 }
 
@@ -317,6 +326,15 @@ func pokeV2(item Item) (vs []pokeViolation) {
 		scribbleV2Item(ccf.Item)
 		if !sameItem(get(), stored) {
 			vs = append(vs, pokeViolation{"v2:item-of-ConditionalCheckFailed", "modifying the item carried by the condition failure changed the stored item"})
+		}
+	}
+	// the input of a batch write
+	bin := toV2Item(item)
+	if _, err := c.BatchWriteItem(ctx, &dynamodb.BatchWriteItemInput{RequestItems: map[string][]v2types.WriteRequest{tbl: {{PutRequest: &v2types.PutRequest{Item: bin}}}}}); err == nil {
+		stored = get()
+		scribbleV2Item(bin)
+		if !sameItem(get(), stored) {
+			vs = append(vs, pokeViolation{"v2:input-of-BatchWriteItem", "modifying the item passed to BatchWriteItem changed what GetItem returns"})
 		}
 	}
 	return vs
